@@ -81,8 +81,8 @@ impl Prop for C16 {
                     out.push(serde_json::to_value(Case { suite: suite.to_string(), entry: e.to_string(), n, t, seed: format!("s{seed}"), cross_process: false }).unwrap());
                 }
                 if e == "batch::Verifier::verify" {
-                    for n in [8u16, 16, 64] {
-                        if n > tier.pick(8, 64) {
+                    for n in [8u16, 16, 64, 65, 130, 300] {
+                        if suite == "ed448" && n > tier.pick(65, 300) {
                             continue;
                         }
                         out.push(serde_json::to_value(Case { suite: suite.to_string(), entry: e.to_string(), n, t: 2, seed: format!("s{seed}"), cross_process: false }).unwrap());
@@ -257,7 +257,17 @@ fn exec<C: Suite>(c: &Case, mut rng: ScriptedRng, fx: &Fixture<C>) -> Result<Obs
                 output.extend(x.serialize());
                 listed.push((format!("delta->{}", id_short::<C>(id)), x.serialize()));
             }
-            secrets = n as usize - 1;
+            // the same with the helper list in another order (greatest identifier first, caller in the middle)
+            let mut rot = helpers.clone();
+            rot.reverse();
+            let caller = rot[rot.len() / 2];
+            let d2 = C::w_repair1(&rot, &g.kps[&caller], &mut rng, g.ids[n as usize]).map_err(e2s("repair1 (reordered helper list)"))?;
+            for (id, x) in &d2 {
+                output.extend(id.serialize());
+                output.extend(x.serialize());
+                listed.push((format!("reordered-list delta->{}", id_short::<C>(id)), x.serialize()));
+            }
+            secrets = 2 * (n as usize - 1);
         }
         "RandomizedParams::new_from_commitments" => {
             let (params, seed) = frost_rerandomized::RandomizedParams::<C>::new_from_commitments(fx.pkp2.verifying_key(), &fx.comms2, &mut rng).map_err(e2s("rr"))?;
